@@ -114,17 +114,21 @@ func (cl *CheckpointList) RetainOnly(ids []uint64) {
 		newestID = max(newestID, id)
 	}
 	nextCheckpoints := make([]*Checkpoint, 0, len(ids))
+	var removedCheckpoints []*Checkpoint
 	for _, cp := range cl.checkpoints {
 		if idsSet.Has(cp.ID) || (len(ids) > 0 && cp.ID > newestID) {
 			nextCheckpoints = append(nextCheckpoints, cp)
 		} else {
-			cl.checkpointsPendingRemoval = append(cl.checkpointsPendingRemoval, cp)
+			removedCheckpoints = append(removedCheckpoints, cp)
 		}
 	}
+	// Nothing is changed when the update cannot be applied: the checkpoints
+	// stay in the list, so they must not become pending removals.
 	if len(nextCheckpoints) == 0 {
 		panic(fmt.Sprintf("db missing the job's retained checkpoints; job_retained=%v, db_current=%v", ids, cl.checkpoints))
 	}
 
+	cl.checkpointsPendingRemoval = append(cl.checkpointsPendingRemoval, removedCheckpoints...)
 	cl.checkpoints = nextCheckpoints
 }
 
